@@ -19,6 +19,91 @@ def var_evaluator(is_var, value):
     return ev
 
 
+def result_evaluator(is_subject, ok):
+    """atom evaluator for "the Result (Option) satisfying is_subject is Ok/Some (ok=True) or Err/None (ok=False)": decides match
+    arms / `if let` / `let else` patterns over it and `.is_ok()` / `.is_err()` / `.is_some()` / `.is_none()` tests of it, in
+    whatever form the decision is written"""
+    POS, NEG = ("Ok", "Some"), ("Err", "None")
+
+    def subj(e):
+        e = peel(e)
+        seen = 0
+        while isinstance(e, dict) and seen < 8:
+            if is_subject(e):
+                return True
+            if e.get("k") == "Path" and "let_init" in e:
+                e = peel(e["let_init"])
+            elif e.get("k") in ("AddrOf", "Deref") or (e.get("k") == "MethodCall" and e.get("method") in ("as_ref", "as_mut", "as_deref")):
+                e = peel(e.get("e") or e.get("recv"))
+            else:
+                return False
+            seen += 1
+        return False
+
+    def pat_val(pat):
+        if not isinstance(pat, dict):
+            return None
+        if pat.get("k") in ("Wild", "Bind"):
+            return True
+        last = (pat.get("path") or "").split("::")[-1]
+        if last in POS:
+            return ok
+        if last in NEG:
+            return not ok
+        return None
+
+    def ev(atom):
+        if isinstance(atom, tuple) and atom and atom[0] == "arm":
+            return pat_val(atom[2]) if subj(atom[1]) else None
+        a = peel(atom)
+        if not isinstance(a, dict):
+            return None
+        if a.get("k") == "LetExpr" and subj(a.get("init")):
+            return pat_val(a.get("pat"))
+        if a.get("k") == "MethodCall" and subj(a.get("recv")):
+            m = a.get("method")
+            if m in ("is_ok", "is_some"):
+                return ok
+            if m in ("is_err", "is_none"):
+                return not ok
+        return None
+    return ev
+
+
+def with_selected_patterns(db, f, ev):
+    """extends the atom evaluator `ev` to `if let Some(x) = E` / `match E { Some(..) => .. }` conditions where E is not itself
+    decided by ev but evaluates — under ev — to a literal `Some(..)` / `None` / `Ok(..)` / `Err(..)` (the decision was moved into a
+    helper or a block that returns an Option): E is followed with `select` under the same assignment"""
+    def ev2(atom):
+        v = ev(atom)
+        if v is not None:
+            return v
+        if isinstance(atom, tuple) and atom and atom[0] == "arm":
+            init, pat = atom[1], atom[2]
+        else:
+            a = peel(atom)
+            if not (isinstance(a, dict) and a.get("k") == "LetExpr"):
+                return None
+            init, pat = a.get("init"), a.get("pat")
+        if not isinstance(pat, dict) or not isinstance(init, dict):
+            return None
+        want = (pat.get("path") or "").split("::")[-1]
+        if want not in ("Some", "None", "Ok", "Err"):
+            return None
+        sel = peel(select(db, f, init, ev))
+        if not isinstance(sel, dict):
+            return None
+        got = None
+        if sel.get("k") == "Call":
+            got = (sel.get("callee") or "").split("::")[-1]
+        elif sel.get("k") == "Path" and sel.get("res") == "def":
+            got = (sel.get("path") or "").split("::")[-1]
+        if got not in ("Some", "None", "Ok", "Err"):
+            return None
+        return got == want
+    return ev2
+
+
 def holds_at(pcs, ev):
     """True: every condition definitely has its recorded polarity; False: some condition definitely has the other; None: unknown"""
     res = True
@@ -245,7 +330,8 @@ def pure_eval(db, f, args):
             if op in ("Eq", "Ne", "Lt", "Le", "Gt", "Ge"):
                 return holds(op, a, b)
             fn = {"BitAnd": lambda: a & b, "BitOr": lambda: a | b, "BitXor": lambda: a ^ b, "Shl": lambda: a << b if 0 <= b < 128 else None,
-                  "Shr": lambda: a >> b if 0 <= b < 128 else None, "Add": lambda: a + b, "Sub": lambda: a - b, "Mul": lambda: a * b}.get(op)
+                  "Shr": lambda: a >> b if 0 <= b < 128 else None, "Add": lambda: a + b, "Sub": lambda: a - b, "Mul": lambda: a * b,
+                  "Rem": lambda: (abs(a) % abs(b)) * (1 if a >= 0 else -1) if b else None, "Div": lambda: (abs(a) // abs(b)) * (1 if (a >= 0) == (b >= 0) else -1) if b else None}.get(op)
             if fn is None or fn() is None:
                 raise Unknown()
             return wrap(fn(), n.get("ty"))
